@@ -7,7 +7,8 @@ Declared raise sets (from the library documentation, cryptography 50.x):
   EllipticCurvePublicKey.from_encoded_point(curve, data)                              ValueError (not a point of the curve)
   X25519PrivateKey.exchange / X448PrivateKey.exchange                                 ValueError (all-zero shared secret: low-order point)
   EllipticCurvePrivateKey.exchange(ECDH(), peer)                                      ValueError (curve mismatch)
-  x509.load_der_x509_certificate(data)                                                ValueError
+  x509.load_der_x509_certificate(data)                                                ValueError - and x509.InvalidVersion (NOT a ValueError
+                                                                                      subclass; not in the documentation, observed: wrong version field)
   Certificate.public_key()                                                            ValueError (malformed key), UnsupportedAlgorithm (unknown key type)
   <public key>.verify(signature, data, *params) with params of THAT key type          InvalidSignature
   <public key>.verify(...) with the parameters of ANOTHER key type                    TypeError / AttributeError   <- Python call-protocol errors
@@ -25,6 +26,8 @@ from cryptography.hazmat.primitives import hashes, hmac, serialization
 from cryptography.hazmat.primitives.asymmetric import dsa, ec, ed448, ed25519, padding, rsa, x448, x25519
 from cryptography.hazmat.primitives.kdf.hkdf import HKDFExpand
 from cryptography.x509.oid import NameOID
+
+LOAD_DER = (ValueError, x509.InvalidVersion)
 
 random.seed(5)
 bad = []
@@ -100,7 +103,7 @@ KEYS = {
 DERS = {k: make_cert(v.public_key()) for k, v in KEYS.items()}
 
 report("x509.load_der_x509_certificate(random / truncated)",
-       [observe("load_der", lambda b=b: x509.load_der_x509_certificate(b), (ValueError,)) for b in list(blobs(200)) + [DERS["rsa"][:k] for k in range(0, len(DERS["rsa"]), 7)]])
+       [observe("load_der", lambda b=b: x509.load_der_x509_certificate(b), LOAD_DER) for b in list(blobs(200)) + [DERS["rsa"][:k] for k in range(0, len(DERS["rsa"]), 7)]])
 
 # byte-flip sweep over whole certificates: parse, then public_key()
 for kind in ("p256", "rsa", "ed25519"):
@@ -111,7 +114,7 @@ for kind in ("p256", "rsa", "ed25519"):
             m = bytearray(der)
             m[pos] ^= flip
             holder = {}
-            r = observe("load_der(flip %s@%d)" % (kind, pos), lambda: holder.setdefault("c", x509.load_der_x509_certificate(bytes(m))), (ValueError,))
+            r = observe("load_der(flip %s@%d)" % (kind, pos), lambda: holder.setdefault("c", x509.load_der_x509_certificate(bytes(m))), LOAD_DER)
             seen_load.append(r)
             if r == "ok":
                 seen_pk.append(observe("public_key(flip %s@%d)" % (kind, pos), lambda: holder["c"].public_key(), (ValueError, UnsupportedAlgorithm)))
@@ -158,6 +161,41 @@ for alg in (hashes.SHA256(), hashes.SHA384()):
             HKDFExpand(algorithm=alg, length=alg.digest_size, info=b[:200]).derive(b)
         seen.append(observe("hash/hmac/hkdf", run, ()))
     report("Hash / HMAC / HKDFExpand(%s)" % alg.name, seen)
+
+# ---- tls.py wrappers that the contracts assume BY READING (thin dispatch over tables of cryptography classes)
+from aioquic import tls  # noqa: E402
+
+known = {int(k) for k in tls.SIGNATURE_ALGORITHMS} | {int(tls.SignatureAlgorithm.ED25519), int(tls.SignatureAlgorithm.ED448)}
+spec_known = {2055, 2056, 1027, 1283, 1539, 513, 1025, 1281, 1537, 2052, 2053, 2054}  # sig_alg_known of contracts/tls_state.py
+seen = []
+for code in range(65536):
+    try:
+        tls.signature_algorithm_params(code)
+        r = "ok"
+    except KeyError:
+        r = "KeyError"
+    except Exception as exc:  # noqa
+        r = "UNDECLARED " + type(exc).__name__
+        bad.append("signature_algorithm_params(%d): %s" % (code, r))
+    if (r == "ok") != (code in spec_known):
+        bad.append("signature_algorithm_params(%d): %s but sig_alg_known says %s" % (code, r, code in spec_known))
+    seen.append(r)
+report("tls.signature_algorithm_params(all 65536 codes) vs sig_alg_known", seen)
+assert known == spec_known, (known, spec_known)
+seen = []
+for group in list(range(0, 64)) + [0x1D, 0x1E, 0x17, 0x18, 0x19, 0xAAAA, 0xFFFF]:
+    for b in blobs(12):
+        seen.append(observe("decode_public_key", lambda: tls.decode_public_key((group, b)), (tls.AlertIllegalParameter,)))
+report("tls.decode_public_key(group, malformed share)", seen)
+assert {int(k) for k in tls.CIPHER_SUITES} == {4865, 4866, 4867}  # suite_known of contracts/tls_state.py
+ctx = tls.Context(is_client=True)
+ctx.key_schedule = tls.KeySchedule(tls.CipherSuite.AES_128_GCM_SHA256)
+seen = []
+for lifetime in (0, 1, 86400, 2**31, 2**32 - 1):
+    for nonce in (b"", b"\x00", bytes(255)):
+        t = tls.NewSessionTicket(ticket_lifetime=lifetime, ticket_age_add=2**32 - 1, ticket_nonce=nonce, ticket=bytes(65535))
+        seen.append(observe("_build_session_ticket", lambda: ctx._build_session_ticket(t, []), ()))
+report("tls.Context._build_session_ticket(extreme lifetime / nonce)", seen)
 
 print()
 if bad:
